@@ -42,6 +42,13 @@ class Interp:
                 self.cmap[re.sub(r'^&(mut )?', '', t)] = (n, t.startswith('&'))
         self.fresh_n = 0
         self.base = []          # assumptions of the harness (list of z3 Bool)
+        # trait impls of the crate itself: `<T as Trait>::m` at call sites, `<impl at file:line>::m` in body headers
+        self.impls = {}
+        for n, b in bodies.items():
+            m = re.match(r'^(?:\w+::)*<impl at [^>]*>::(\w+)$', n)
+            if m and 1 in b.locals:
+                t = re.sub(r"^&(?:'\w+ )?(?:mut )?", '', b.locals[1]).split('<')[0].split('::')[-1]
+                self.impls.setdefault((t, m.group(1)), []).append(n)
 
     # ---- path management (replay based DFS) -------------------------------------------------
     def explore(self, run):
@@ -55,6 +62,7 @@ class Interp:
             self.fresh_n = 0
             self.path_log = []
             self.decided = {}
+            self.statics = {}            # process-wide state of the interpreted crate: lives for one path
             self.stats['paths'] += 1
             if self.stats['paths'] > self.max_paths:
                 raise PathLimit(f'more than {self.max_paths} paths')
@@ -232,6 +240,12 @@ class Interp:
                 if c in self.bodies:
                     r = c
                     break
+            else:
+                m = re.match(r'^<([\w:]+) as [\w:<>, ]+>::(\w+)$', callee)
+                if m:
+                    cands = self.impls.get((m.group(1).split('::')[-1], m.group(2)), [])
+                    if len(cands) == 1:
+                        r = cands[0]
         self._resolve_cache[callee] = r
         return r
 
@@ -328,6 +342,21 @@ class Interp:
             return copy_val(self.consts[s])
         if 'HasIterator' in s:
             return Agg('HasIterator', [])
+        m = re.match(r'^\{(alloc\d+): &', s)
+        if m:
+            allocs = getattr(self.bodies, 'allocs', None) or {}
+            name = allocs.get(m.group(1))
+            if name is None:
+                raise Unsupported('reference to unknown allocation ' + s)
+            cell = self.statics.get(name)
+            if cell is None:
+                body = self.bodies.get(name) or self.bodies.get(name.split('::')[-1])
+                if body is None:
+                    raise Unsupported('static without a MIR body: ' + name)
+                cell = Cell(self.run_body(body, []))
+                self.statics[name] = cell
+                self.env.setdefault('statics_touched', []).append(name)
+            return Ref(cell)
         m = re.match(r'ZeroSized: (\{closure@.*\})$', s)
         if m:
             return Closure(m.group(1), [])
